@@ -3,6 +3,7 @@ package c10
 
 import (
 	"bytes"
+	"crypto/sha256"
 	"errors"
 	"fmt"
 	"math/bits"
@@ -21,7 +22,7 @@ import (
 )
 
 func init() {
-	pbt.Describe("read: (log seed, tree size N biased to 2^k+-1 and to sizes whose tree-hash tiles coincide, tile height H in {1,2,3,4,8,10}, a set of in-tree hash positions at any level, 0-3 faults on the tiles actually requested). Faults: any single bit, swap/duplicate hashes, another tile of the same tree, the same tile of a forked tree sharing a prefix, truncate/extend by a byte or a hash, empty, zeroed, fewer/more result slices. The tile reader serves reference tiles computed from leaf data. Oracle: honest service => exactly the true stored hashes; otherwise an error, or still the true hashes; every (tile,data) handed to SaveTiles is byte-identical to the true tile. enum: every single position x every requested tile x a fixed fault menu for all N up to a bound and H in {1,2,3(,4)}. publish: growth schedules 0=n0<n1<...; a reader that serves only coordinates returned by NewTiles (or the published full tile for a partial request) must satisfy reads of every position of every tree n_i. tiledata/path: ReadTileData/HashFromTile/TileForIndex against the reference, and Tile<->path bijection against an independently written formatter. Non-trivial: read/enum = a delivered tile differs from the truth and is NOT one of the tree-hash tiles, or it is a tree-hash tile shared by two subtree hashes, or (honest) >=3 tiles planned; publish = >=2 growth steps; path = valid tile or accepted string. Distinct by JSON rendering. The hashes the first ReadHashes returned are compared with the reference again after the second read on the same reader. 1% of the read cases ask in one call for the record hash of every, every second or every third record of a log of 300-9000 records (thousands of tiles in one plan). Tile numbers of the path round trip go up to MaxInt64.",
+	pbt.Describe("read: (log seed, tree size N biased to 2^k+-1 and to sizes whose tree-hash tiles coincide, tile height H in {1,2,3,4,8,10}, a set of in-tree hash positions at any level, 0-3 faults on the tiles actually requested). Faults: any single bit, swap/duplicate hashes, another tile of the same tree, the same tile of a forked tree sharing a prefix, truncate/extend by a byte or a hash, empty, zeroed, fewer/more result slices, and a tile forged together with one to three ancestors forged to vouch for it (each ancestor's entry for its child replaced by the hash of the forged child, so that only the topmost forged tile disagrees with anything above it). The tile reader serves reference tiles computed from leaf data. Oracle: honest service => exactly the true stored hashes; otherwise an error, or still the true hashes; every (tile,data) handed to SaveTiles is byte-identical to the true tile. enum: every single position x every requested tile x a fixed fault menu for all N up to a bound and H in {1,2,3(,4)}. publish: growth schedules 0=n0<n1<...; a reader that serves only coordinates returned by NewTiles (or the published full tile for a partial request) must satisfy reads of every position of every tree n_i. tiledata/path: ReadTileData/HashFromTile/TileForIndex against the reference, and Tile<->path bijection against an independently written formatter. Non-trivial: read/enum = a delivered tile differs from the truth and is NOT one of the tree-hash tiles, or it is a tree-hash tile shared by two subtree hashes, or (honest) >=3 tiles planned; publish = >=2 growth steps; path = valid tile or accepted string. Distinct by JSON rendering. The hashes the first ReadHashes returned are compared with the reference again after the second read on the same reader. 1% of the read cases ask in one call for the record hash of every, every second or every third record of a log of 300-9000 records (thousands of tiles in one plan). Tile numbers of the path round trip go up to MaxInt64.",
 		"merkleref reference tiles are correct; SHA-256 collision-free", "tree has at least one record; requested positions are non-negative", "ParseTilePath accepting L>63 (outside Tile's documented range) is not asserted against")
 }
 
@@ -59,7 +60,7 @@ type readCase struct {
 	Bulk    int `json:",omitempty"` // >0: the first read asks for the record hash of every Bulk'th record (hundreds to thousands of tiles in one call)
 }
 
-var faultKinds = []string{"bit", "bit", "bit", "swap", "dup", "other-tile", "other-tile", "foreign", "foreign", "trunc-byte", "trunc-hash", "ext-byte", "ext-hash", "empty", "zero", "fewer-slices", "more-slices", "error"}
+var faultKinds = []string{"bit", "bit", "bit", "swap", "dup", "other-tile", "other-tile", "foreign", "foreign", "trunc-byte", "trunc-hash", "ext-byte", "ext-hash", "empty", "zero", "fewer-slices", "more-slices", "error", "vouch", "vouch"}
 
 func genN(t *rapid.T, max int64) int64 {
 	switch rapid.IntRange(0, 9).Draw(t, "nk") {
@@ -184,6 +185,7 @@ type faultyReader struct {
 	calls   int
 	reqErr  bool
 	slicesD int // +1 / -1 for more/fewer slices
+	vouched int // number of parent tiles forged to vouch for a forged child
 }
 
 func (r *faultyReader) Height() int { return r.h }
@@ -219,7 +221,7 @@ func (r *faultyReader) ReadTiles(tiles []tlog.Tile) ([][]byte, error) {
 		d := append([]byte(nil), out[k]...)
 		w := len(d) / 32
 		kind := f.Kind
-		if w == 0 && (kind == "bit" || kind == "swap" || kind == "dup" || kind == "trunc-byte" || kind == "trunc-hash" || kind == "ext-hash" || kind == "other-tile") {
+		if w == 0 && (kind == "bit" || kind == "swap" || kind == "dup" || kind == "trunc-byte" || kind == "trunc-hash" || kind == "ext-hash" || kind == "other-tile" || kind == "vouch") {
 			kind = "ext-byte" // earlier faults left nothing to work on
 		}
 		switch kind {
@@ -255,6 +257,34 @@ func (r *faultyReader) ReadTiles(tiles []tlog.Tile) ([][]byte, error) {
 			d = nil
 		case "zero":
 			d = make([]byte, len(d))
+		case "vouch":
+			// a forged tile together with ancestors forged to vouch for it: the tile gets one bit flipped, and the
+			// entry for it in its parent tile (when the parent is part of the same request) is replaced by the hash
+			// of the forged content, so that tile and parent agree with each other and the parent disagrees with
+			// ITS parent; with J odd the grandparent vouches for the forged parent as well, and so on upwards.
+			d[f.I%len(d)] ^= 1 << uint(f.Bit)
+			child, cd := t, d
+			for up := 0; up <= f.J%3 && child.W == 1<<uint(child.H); up++ {
+				pk := -1
+				for j, pt := range tiles {
+					if pt.L == child.L+1 && pt.N == child.N>>uint(child.H) && int(child.N&(1<<uint(child.H)-1)) < pt.W {
+						pk = j
+					}
+				}
+				if pk < 0 || pk == k {
+					break
+				}
+				pd := append([]byte(nil), out[pk]...)
+				idx := int(child.N & (1<<uint(child.H) - 1))
+				if len(pd) < idx*32+32 {
+					break
+				}
+				th := fullTileHash(cd)
+				copy(pd[idx*32:], th[:])
+				out[pk] = pd
+				r.vouched++
+				child, cd = tiles[pk], pd
+			}
 		case "fewer-slices":
 			r.slicesD = -1
 		case "more-slices":
@@ -279,6 +309,28 @@ func (r *faultyReader) ReadTiles(tiles []tlog.Tile) ([][]byte, error) {
 		out = append(out, make([]byte, 32))
 	}
 	return out, nil
+}
+
+// fullTileHash is the hash a parent tile records for a full child tile: the RFC 6962 node hash
+// over the child's 2^H hashes, pairwise.
+func fullTileHash(d []byte) [32]byte {
+	var hs [][32]byte
+	for i := 0; i+32 <= len(d); i += 32 {
+		var h [32]byte
+		copy(h[:], d[i:])
+		hs = append(hs, h)
+	}
+	for len(hs) > 1 {
+		var next [][32]byte
+		for i := 0; i+1 < len(hs); i += 2 {
+			next = append(next, sha256.Sum256(append(append([]byte{1}, hs[i][:]...), hs[i+1][:]...)))
+		}
+		hs = next
+	}
+	if len(hs) == 0 {
+		return [32]byte{}
+	}
+	return hs[0]
 }
 
 func (r *faultyReader) SaveTiles(tiles []tlog.Tile, data [][]byte) {
@@ -398,6 +450,10 @@ func checkRead(c readCase) pbt.Result {
 					r.Classes = append(r.Classes, "corruption on a later read of the same reader")
 				}
 			}
+		}
+		if rd.vouched > 0 {
+			r.NonTrivial = true
+			r.Classes = append(r.Classes, "forged tile with a parent forged to vouch for it")
 		}
 		honest := !anyDiff && !rd.reqErr && rd.slicesD == 0
 		if honest && len(rd.served)-servedBefore >= 3 {
